@@ -36,6 +36,7 @@ type Rec struct {
 	Point  string // hook point
 	Actor  string
 	Panic  bool
+	At     time.Duration // virtual time of the record
 }
 
 func (r Rec) String() string {
@@ -81,6 +82,7 @@ type parkedG struct {
 }
 
 type world struct {
+	t0      time.Time
 	freeRun bool  // never park; perturb instead
 	tape    []int // perturbation tape (the scenario's picks)
 	tapePos atomic.Int64
@@ -100,6 +102,7 @@ func (w *world) reg(key any, name string) {
 }
 
 func (w *world) add(r Rec) {
+	r.At = time.Since(w.t0)
 	w.mu.Lock()
 	w.log = append(w.log, r)
 	w.mu.Unlock()
@@ -347,7 +350,7 @@ func runScenarioMode(t *testing.T, sc Scenario, freeRun bool) (ex execution) {
 		curMu.Unlock()
 	}()
 	synctest.Test(t, func(t *testing.T) {
-		w := &world{keys: map[any]string{}, freeRun: freeRun, tape: sc.Picks}
+		w := &world{keys: map[any]string{}, freeRun: freeRun, tape: sc.Picks, t0: time.Now()}
 		curMu.Lock()
 		cur = w
 		curMu.Unlock()
@@ -360,7 +363,11 @@ func runScenarioMode(t *testing.T, sc Scenario, freeRun bool) (ex execution) {
 			case "finite":
 				rr.inner, _ = sse.NewFiniteReplayer(sc.Cap, sc.Auto)
 			case "valid":
-				rr.inner, _ = sse.NewValidReplayer(1000*time.Hour, sc.Auto)
+				ttl := 1000 * time.Hour
+				if sc.TTLms > 0 {
+					ttl = time.Duration(sc.TTLms) * time.Millisecond
+				}
+				rr.inner, _ = sse.NewValidReplayer(ttl, sc.Auto)
 			}
 			j.Replayer = rr
 		}
@@ -381,6 +388,9 @@ func runScenarioMode(t *testing.T, sc Scenario, freeRun bool) (ex execution) {
 			if (sc.Replayer == "finite" || sc.Replayer == "valid") && sc.Auto == isBad {
 				// manual mode needs an ID, automatic mode must not have one; a "bad" message breaks that
 				m.ID = sse.ID("id-" + ser)
+				if sc.EmptyIDAt > 0 && serialCounter == sc.EmptyIDAt && !isBad {
+					m.ID = sse.ID("") // a set, empty ID is a valid manual ID
+				}
 			}
 			ex.msgTopics[ser] = topics
 			ex.msgPub[ser] = pub
@@ -456,6 +466,12 @@ func runScenarioMode(t *testing.T, sc Scenario, freeRun bool) (ex execution) {
 			actions = append(actions, action{fmt.Sprintf("cancel sub%d #%d", ci, n), func() {
 				w.add(Rec{K: "cancelreq", Sub: ci})
 				cancels[ci]()
+			}})
+		}
+		for n, ms := range sc.Sleeps {
+			ms := ms
+			actions = append(actions, action{fmt.Sprintf("sleep %dms #%d", ms, n), func() {
+				time.Sleep(time.Duration(ms) * time.Millisecond)
 			}})
 		}
 		var shutCancels []context.CancelFunc
